@@ -11,11 +11,12 @@ def leak_case(c):
     L = c.get("L", 140)
     tr = 6 if gauss is None else c.get("tr", 48)
     shape = [tr, tr, tr]; shape[axis] = L
-    wl = cpw * sp
+    eps = float(c.get("eps", 1.0))
+    wl = cpw * sp * float(np.sqrt(eps))        # cpw cells per wavelength IN the medium
     cfg = fdtdx.SimulationConfig(time=1.0, grid=fdtdx.UniformGrid(spacing=sp), backend="cpu", dtype=jnp.float64)
     nsteps = c.get("nsteps", 700)
     cfg = cfg.aset("time", cfg.time_step_duration * nsteps * 1.0001)
-    vol = fdtdx.SimulationVolume(partial_grid_shape=tuple(shape))
+    vol = fdtdx.SimulationVolume(partial_grid_shape=tuple(shape), **({"material": fdtdx.Material(permittivity=eps)} if eps != 1.0 else {}))
     bt = {}
     for a, ax in enumerate("xyz"):
         bt["min_" + ax] = bt["max_" + ax] = ("pml" if a == axis else "periodic")
